@@ -1,10 +1,38 @@
 package c03
 
 import (
+	"bytes"
+
 	"github.com/evstack/ev-node/types"
 
 	"verifharness/monitors"
+	"verifharness/world"
 )
+
+// sameSignedItem tells whether blob b is another encoding of the proposer's item in blob genuine: it decodes to a header
+// (signed data) whose signed payload equals the genuine one's and whose signature verifies under the proposer's key.
+func sameSignedItem(b, genuine []byte, k world.Keys) bool {
+	if gh, bh := decodeHeaderLoose(genuine), decodeHeaderLoose(b); gh != nil && bh != nil && len(gh.ProposerAddress) > 0 {
+		gp, err1 := gh.Header.MarshalBinary()
+		bp, err2 := bh.Header.MarshalBinary()
+		if err1 != nil || err2 != nil || !bytes.Equal(gp, bp) {
+			return false
+		}
+		ok, err := k.Pub.Verify(bp, bh.Signature)
+		return err == nil && ok
+	}
+	var gd, bd types.SignedData
+	if gd.UnmarshalBinary(genuine) != nil || bd.UnmarshalBinary(b) != nil || len(gd.Txs) == 0 {
+		return false
+	}
+	gp, err1 := gd.Data.MarshalBinary()
+	bp, err2 := bd.Data.MarshalBinary()
+	if err1 != nil || err2 != nil || !bytes.Equal(gp, bp) {
+		return false
+	}
+	ok, err := k.Pub.Verify(bp, bd.Signature)
+	return err == nil && ok
+}
 
 func monitorsCommitment(txs [][]byte) []byte { return monitors.Commitment(txs) }
 
